@@ -17,7 +17,8 @@ import operator
 
 
 class ConstantFolder(ast.NodeTransformer):
-    def __init__(self):
+    def __init__(self, user_functions=[]):
+        self.user_functions = user_functions
         self.builtin_funcs = {
             "abs": abs,
             "len": len,
@@ -90,7 +91,11 @@ class ConstantFolder(ast.NodeTransformer):
 
     def visit_Call(self, node):
         self.generic_visit(node)
-        if isinstance(node.func, ast.Name) and node.func.id in self.builtin_funcs:
+        if (
+            isinstance(node.func, ast.Name)
+            and node.func.id in self.builtin_funcs
+            and node.func.id not in self.user_functions
+        ):
 
             def arg_tr(arg):
                 if isinstance(arg, ast.Tuple) or isinstance(arg, ast.List):
